@@ -57,7 +57,7 @@ DATE_ZONES = [b'+0000', b'-0700', b'+0530', b'+1300', b'-1100', b'+0000', b'-033
 
 def date_str(day):
     # the zone varies with the day: what has to be preserved is the instant, and a server that drops or swaps the zone moves it
-    return b'"%02d-Jan-2020 10:00:00 %s"' % (1 + day % 28, DATE_ZONES[day % len(DATE_ZONES)])
+    return b'"%02d-Jan-2020 10:00:00 %s"' % (1 + day % 28, DATE_ZONES[(day * 7 + 3) % len(DATE_ZONES)])
 
 
 def _instant(text):
